@@ -2,6 +2,7 @@ package resource
 
 import (
 	"context"
+	"fmt"
 	"log"
 	"sort"
 	"sync"
@@ -33,6 +34,15 @@ func NewCollection(options ...Option) *Collection {
 	conf := computeConfig(options...)
 	initialItems := make(map[string]*item)
 	for k, v := range conf.initialRecords {
+		// An initial record is addressed like any other item: Get, Update and Delete look an id up under the id
+		// interceptor's image of it, so that is the key the record is kept under.
+		if conf.idInterceptor != nil {
+			k = conf.idInterceptor(k)
+		}
+		if _, ok := initialItems[k]; ok {
+			// two initial records the interceptor maps to one id, see WithInitialRecord
+			panic(fmt.Sprintf("initial record id:%v already exists", k))
+		}
 		initialItems[k] = &item{body: v, changeTime: conf.clock.Now()}
 	}
 	conf.initialRecords = nil // so the gc can collect them
